@@ -3,12 +3,14 @@
    up to two global secondary indexes: gix on (g) and gsx on (g, s).  Items may own none, one or both index
    key attributes; several items share an index key; indexes are created on populated tables.            *)
 EXTENDS ModelLib
-CONSTANTS KeyBytes, GBytes
+CONSTANTS KeyBytes, GBytes, IllTyped
 
 T1 == "tbl1"
 K(b) == [h |-> S1(b)]
 Keys == { K(b) : b \in KeyBytes }
-GV == { S1(b) : b \in GBytes }
+\* IllTyped: g may also hold a number - such an item is not eligible for the indexes (g is declared S): it is left out when an index
+\* is created over it, refused once an index exists, and must be deletable / updatable like any other item
+GV == { S1(b) : b \in GBytes } \cup (IF IllTyped THEN { Num(1) } ELSE {})
 SV == { S1(49) }
 Items == { k @@ g @@ s : k \in Keys, g \in { <<>> } \cup { [g |-> x] : x \in GV }, s \in { <<>> } \cup { [s |-> x] : x \in SV } }
 
